@@ -257,6 +257,15 @@ pub fn run_law(op: &str, args: &[String]) -> String {
                 r.insert(var(rng.below(n)), rng.coin());
             }
             r.insert("zz".to_string(), true);
+            // long assignments (a whole network state): 63, 64, 65 and 100 keys in every other case
+            if seed % 2 == 1 {
+                let total = [63usize, 64, 65, 100][((seed / 4) % 4) as usize];
+                let mut i = 0;
+                while r.len() < total {
+                    r.insert(format!("k{:03}", i), rng.coin());
+                    i += 1;
+                }
+            }
             let res = match &a {
                 Val::E(x) => Val::E(x.restrict(&r)),
                 Val::T(x) => Val::T(x.restrict(&r)),
@@ -372,7 +381,14 @@ pub fn run_law(op: &str, args: &[String]) -> String {
             // f = recipe & (d | !d): d is declared, not essential
             let d = var(n);
             let dl: E = ExpressionNode::Literal(d.clone()).into();
-            let e = ea.clone() & (dl.clone() | !dl);
+            // seed % 3: 0 = a harmless declared-only operand; 1 = an operand that declares d and is
+            // constantly false under a conjunction; 2 = constantly true under a disjunction (then the
+            // whole function is constant and nothing is essential)
+            let e = match seed % 3 {
+                0 => ea.clone() & (dl.clone() | !dl),
+                1 => Expression::n_ary_and(&[ea.clone(), !(dl.clone() | !dl)]),
+                _ => Expression::n_ary_or(&[ea.clone(), !(dl.clone() & !dl)]),
+            };
             let f = as_kind(kind, &e);
             let (ins, ess): (BTreeSet<String>, BTreeSet<String>) = match &f {
                 Val::E(x) => (x.inputs(), x.essential_inputs()),
@@ -391,7 +407,7 @@ pub fn run_law(op: &str, args: &[String]) -> String {
                 flips.push_str(&format!("({} {})", enc_name(&u), enc_bool(f0 != f1)));
             }
             flips.push(')');
-            format!("(L {} {} {} {})", enc_names(ins.iter()), enc_names(ess.iter()), enc_name(&d), flips)
+            format!("(L {} {} {} {} {})", enc_names(ins.iter()), enc_names(ess.iter()), enc_name(&d), flips, enc_bool(seed % 3 != 0))
         }
         "law.conv.EB" | "law.conv.BE" | "law.conv.ET" | "law.conv.TE" | "law.conv.BT" => {
             let dir = &op[9..];
@@ -721,14 +737,14 @@ pub fn gen_laws(cx: &mut crate::gen::Ctx, prop: &str) {
         let kinds: Vec<(&str, Vec<usize>)> = if op.starts_with("law.conv.") {
             // the source kind is fixed by the direction; tables are exponential in n
             let dir = &op[9..];
-            let sizes: Vec<usize> = if dir.contains('T') { vec![9, 12] } else { vec![17, 33, 54, 65] };
+            let sizes: Vec<usize> = if dir.contains('T') { vec![6, 7, 8, 9, 10, 12] } else { vec![8, 16, 17, 32, 33, 54, 64, 65] };
             vec![("-", sizes)]
         } else {
             vec![
-                ("E", if *op == "law.weight" || *op == "law.essential" { vec![9, 12] } else if *op == "law.cmp" { vec![9, 12, 16, 17] } else { vec![17, 40] }),
+                ("E", if *op == "law.weight" || *op == "law.essential" { vec![6, 9, 12] } else if *op == "law.cmp" { vec![6, 9, 12, 16, 17] } else { vec![8, 16, 17, 32, 33, 40] }),
                 // tables are exponential in the inputs: 16 and 17 inputs only for the unary operations
-                ("T", if ["law.restrict", "law.exists", "law.forall", "law.deriv", "law.eval"].contains(op) { if cx.thorough { vec![9, 12, 14, 16, 17] } else { vec![9, 12, 16] } } else { vec![9, 12] }),
-                ("B", if cx.thorough { vec![17, 33, 54, 65, 90] } else { vec![17, 33, 54, 65] }),
+                ("T", if ["law.restrict", "law.exists", "law.forall", "law.deriv", "law.eval"].contains(op) { if cx.thorough { vec![5, 6, 7, 8, 9, 10, 11, 12, 14, 16, 17] } else { vec![6, 7, 8, 9, 10, 12, 16] } } else { vec![6, 7, 8, 9, 10, 12] }),
+                ("B", if cx.thorough { vec![8, 16, 17, 31, 32, 33, 53, 54, 63, 64, 65, 90] } else { vec![8, 16, 17, 32, 33, 54, 64, 65] }),
             ]
         };
         let kinds: Vec<(&str, Vec<usize>)> = if *op == "law.elimall" {
